@@ -12,7 +12,8 @@
 (*           255, 256, one edit (delegate / rescind / threshold) at the limit.                    *)
 EXTENDS Doc, Json
 
-CONSTANTS Family, Payloads
+CONSTANTS Family, Payloads,
+          ListIds, ListThresholds   \* "lists" family: which of the 14 long lists, which thresholds
 
 Seq1(n) == [i \in 1..n |-> i]                       \* 1, 2, ..., n
 Twice(n) == [i \in 1..(2 * n) |-> (i + 1) \div 2]   \* 1, 1, 2, 2, ..., n, n
@@ -33,12 +34,11 @@ Fields == {J(v, "list", s, t, p, vis, u) :
                p \in Payloads, vis \in {"absent", "public", "private", "allow", "bad"}, u \in BOOLEAN}
           \cup {J(Absent, k, <<>>, 1, "project", "absent", FALSE) : k \in {"absent", "bad"}}
 
-LongLists == {Seq1(254), Seq1(255), Seq1(256), Seq1(300),
-              Seq1(255) \o <<1>>, Seq1(255) \o Seq1(255), Seq1(255) \o <<256>>, <<256>> \o Seq1(255),
-              Seq1(254) \o <<1, 255>>, Seq1(254) \o <<1, 255, 256>>,
-              Twice(255), Twice(256), Same(300, 7), Same(300, 7) \o Seq1(255)}
-Lists == {J(Absent, "list", s, t, "project", "absent", FALSE) :
-              s \in LongLists, t \in {0, 1, 2, 253, 254, 255, 256, 300}}
+LongList(i) == CASE i = 1 -> Seq1(254) [] i = 2 -> Seq1(255) [] i = 3 -> Seq1(256) [] i = 4 -> Seq1(300)
+                 [] i = 5 -> Seq1(255) \o <<1>> [] i = 6 -> Seq1(255) \o Seq1(255) [] i = 7 -> Seq1(255) \o <<256>>
+                 [] i = 8 -> <<256>> \o Seq1(255) [] i = 9 -> Seq1(254) \o <<1, 255>> [] i = 10 -> Seq1(254) \o <<1, 255, 256>>
+                 [] i = 11 -> Twice(255) [] i = 12 -> Twice(256) [] i = 13 -> Same(300, 7) [] i = 14 -> Same(300, 7) \o Seq1(255)
+Lists == {J(Absent, "list", LongList(i), t, "project", "absent", FALSE) : i \in ListIds, t \in ListThresholds}
 
 MCJsonDocs == CASE Family = "small" -> Small [] Family = "fields" -> Fields [] Family = "lists" -> Lists
 
